@@ -218,7 +218,7 @@ func buildCluster(schemas map[string]schemaModel, order []string) *proxyv1alpha1
 }
 
 func TestPropReportHistories(t *testing.T) {
-	sub := stats.NewSub("report-histories", "rapid state machine on the real limiter (local store / API-backed write-through store): ops report(instance, usage) by honest instances, new instance, change of the global limit (cluster object -> UpstreamConditionHandler), reclaim of a silent instance; after every report: answered quota in [1, limit], the two sum clauses against the model's sum of last answers, store contents (ListUpstream) = model, recorded status sum in <upstream>.state = actual sum; non-trivial = history contains a limit change or a report while the sum is within 10% of / above the limit; distinct by FNV-64 of the op trace")
+	sub := stats.NewSub("report-histories", "rapid state machine on the real limiter (local store / API-backed write-through store): ops remove a schema (1-3 schemas per upstream), report(instance, usage) by honest instances, new instance, change of the global limit (cluster object -> UpstreamConditionHandler), reclaim of a silent instance; after every report: answered quota in [1, limit], the two sum clauses against the model's sum of last answers, store contents (ListUpstream) = model, recorded status sum in <upstream>.state = actual sum; non-trivial = history contains a limit change or a report while the sum is within 10% of / above the limit; distinct by FNV-64 of the op trace")
 	stats.Check(t, stats.N(1500, 25000), func(t *rapid.T) {
 		storeKind := rapid.SampledFrom([]string{"local", "k8s"}).Draw(t, "store")
 		box := limbox.New(storeKind, 1, "srv")
@@ -227,6 +227,9 @@ func TestPropReportHistories(t *testing.T) {
 		schemas := map[string]schemaModel{}
 		if rapid.Bool().Draw(t, "twoSchemas") {
 			order = append(order, "s2")
+			if rapid.Bool().Draw(t, "threeSchemas") {
+				order = append(order, "s3")
+			}
 		}
 		genSchema := func(label string, keepType *bool) schemaModel {
 			m := schemaModel{}
@@ -361,6 +364,23 @@ func TestPropReportHistories(t *testing.T) {
 				trace += fmt.Sprintf("limit(%s:%d->%d);", n, old.total, schemas[n].total)
 				nt = true
 				sub.Class("limit-change")
+			},
+			"removeSchema": func(t *rapid.T) {
+				// a schema disappears from the upstream's configuration; the instances' records keep listing it until they
+				// report again, the accounting of the remaining schemas must not notice
+				if len(order) < 2 {
+					t.Skip("only one schema left")
+				}
+				i := rapid.IntRange(0, len(order)-1).Draw(t, "which")
+				gone := order[i]
+				order = append(append([]string{}, order[:i]...), order[i+1:]...)
+				delete(schemas, gone)
+				if err := box.SetCluster(buildCluster(schemas, order)); err != nil {
+					t.Fatalf("harness: SetCluster: %v", err)
+				}
+				trace += fmt.Sprintf("removeSchema(%s);", gone)
+				nt = true
+				sub.Class("schema-removed")
 			},
 			"reclaim": func(t *rapid.T) {
 				if len(insts) == 0 {
